@@ -40,6 +40,12 @@ Theorem C08_f64_eqb_iff_same_json_number : forall x y,
   f_is_finite x = true -> f_is_finite y = true -> (f_eqb x y = true <-> fnorm x = fnorm y).
 Proof. exact f64_eqb_iff. Qed.
 
+(* the order of doubles is the order of their exact values (scaled by 2^1074 they are integers) *)
+Theorem C08_f64_compare_is_value_order : forall a b,
+  f_is_finite (f_of_bits a) = true -> f_is_finite (f_of_bits b) = true ->
+  f_compare (f_of_bits a) (f_of_bits b) = Some (zval (f_of_bits a) ?= zval (f_of_bits b))%Z.
+Proof. exact f_compare_bits_value. Qed.
+
 (* ---- == on values that have a JSON value ---- *)
 Theorem C08_equals_total : forall a b ja jb,
   wf a -> wf b -> to_json a = Some ja -> to_json b = Some jb -> exists r, equals a b = Ok r.
@@ -60,6 +66,11 @@ Theorem C08_equals_trans : forall a b c ja jb jc,
   wf a -> wf b -> wf c -> to_json a = Some ja -> to_json b = Some jb -> to_json c = Some jc ->
   equals a b = Ok true -> equals b c = Ok true -> equals a c = Ok true.
 Proof. exact equals_trans. Qed.
+
+(* == is transitive on ALL trees: two answers `true` suffice (hidden / unvisited parts may fail) *)
+Theorem C08_equals_trans_lazy : forall a b c, wf a -> wf b -> wf c ->
+  equals a b = Ok true -> equals b c = Ok true -> equals a c = Ok true.
+Proof. exact equals_trans_lazy. Qed.
 
 Theorem C08_ne_is_negb_eq : forall a b, op_ne a b = omap negb (op_eq a b).
 Proof. exact ne_is_negb_eq. Qed.
@@ -218,7 +229,10 @@ Example C08_nonvacuous :
   (* strings and numbers *)
   str_ok [0xFF5E; 0x10FFFF] /\ lex_compare (utf8 [0xFF5E]) (utf8 [0x10000]) = Lt /\
   f_compare (f_of_bits 0x8000000000000000) (f_of_bits 0) = Some Eq /\
-  f_compare (f_of_bits 0x4340000000000000) (f_of_bits 0x4340000000000001) = Some Lt.
+  f_compare (f_of_bits 0x4340000000000000) (f_of_bits 0x4340000000000001) = Some Lt /\
+  zval (f_of_bits 1) = 1%Z /\ f_is_finite (f_of_bits 0x7fefffffffffffff) = true /\
+  (* == true twice with a failing hidden field in the middle value *)
+  equals exB exA = Ok true /\ equals exA exB = Ok true.
 Proof.
   split; [solve_wf|]. split; [solve_wf|].
   split; [eexists; split; vm_compute; reflexivity|].
@@ -229,7 +243,7 @@ Proof.
   split; [vm_compute; discriminate|].
   split; [vc|]. split; [vc|].
   split; [solve_wf|].
-  split; [vc|]. split; [vc|]. vc.
+  split; [vc|]. split; [vc|]. split; [vc|]. split; [vc|]. split; [vc|]. split; [vc|]. vc.
 Qed.
 
 Print Assumptions C08_utf8_order_is_cp_order.
@@ -237,11 +251,13 @@ Print Assumptions C08_str_compare_is_cp_order.
 Print Assumptions C08_str_eqb_is_eq.
 Print Assumptions C08_f64_order_laws.
 Print Assumptions C08_f64_eqb_iff_same_json_number.
+Print Assumptions C08_f64_compare_is_value_order.
 Print Assumptions C08_equals_total.
 Print Assumptions C08_equals_iff_same_json.
 Print Assumptions C08_equals_refl.
 Print Assumptions C08_equals_sym.
 Print Assumptions C08_equals_trans.
+Print Assumptions C08_equals_trans_lazy.
 Print Assumptions C08_ne_is_negb_eq.
 Print Assumptions C08_std_equals_agrees.
 Print Assumptions C08_primitive_equals_agrees.
